@@ -96,6 +96,8 @@ type Call struct {
 	DAG    [][]string
 	UseTag bool
 	HasOpt bool
+	PresetTag  bool // W1: the call reuses the previous call's Stag object as it was left
+	TagAtEntry bool // the tag was already raised when the call began
 	OptName bool   // the plain name ov is injected (as *int64) in this call
 	OvPtr   *int64 // what was injected under it
 	OddKeys bool // the data map also carries an empty key and a nil value (the pool must ignore both)
@@ -179,6 +181,8 @@ type Scenario struct {
 	NeedKf   bool
 	NeedFf   bool
 	NeedFa   bool
+	NeedApi  bool
+	lastTag  *engine.Stag
 	OnlyHReq bool // every rule gets by with the injected names H and Req (the two-object pool method can be used)
 	DoMgmt   func(op int)
 }
@@ -215,6 +219,9 @@ func (sc *Scenario) Index() {
 			}
 			if s.Kind == SecFnArgKind || s.Kind == SecFnArgCount {
 				sc.NeedFa = true
+			}
+			if s.Kind == SecApiSet {
+				sc.NeedApi = true
 			}
 		}
 	}
